@@ -352,19 +352,18 @@ theorem chk_sound (sk : Sk) : ∀ (m : List Var) (o : AOut) (s : St) (sc : List 
     subst h
     exact ⟨rfl, by simp [run], fun _ => ⟨m, rfl, ha⟩⟩
 
-/-- **balanced_sound**: a root skeleton accepted by the checker, run from a state in which no tracked
-    place holds a block, on ANY path: loses nothing, and every place that still holds a block lies under
-    one of the declared out-parameters -/
-theorem balancedEsc_sound (esc : List Nat) (root : Sk) (h : balancedEsc esc root = true) (s : St)
-    (hs : s.store = []) (sc : List Nat) :
+/-- **balancedFrom_sound**: a root skeleton accepted by the checker from the entry assumption `m0`, run from
+    any state in which only places of `m0` hold a block, on ANY path: loses nothing, and every place that
+    still holds a block lies under one of the declared out-parameters -/
+theorem balancedFrom_sound (m0 : List Var) (esc : List Nat) (root : Sk) (h : balancedFrom m0 esc root = true)
+    (s : St) (ha : Abs m0 s) (sc : List Nat) :
     (run root (s, sc)).st.lost = s.lost ∧
     ∀ p ∈ (run root (s, sc)).st.store, ∃ a, p.1.head? = some a ∧ a ∈ esc := by
-  have ha : Abs [] s := by intro p hp; rw [hs] at hp; cases hp
-  unfold balancedEsc at h
-  cases hc : chk root [] with
+  unfold balancedFrom at h
+  cases hc : chk root m0 with
   | none => simp [hc] at h
   | some o =>
-    obtain ⟨p1, p2, p3⟩ := chk_sound root [] o s sc hc ha
+    obtain ⟨p1, p2, p3⟩ := chk_sound root m0 o s sc hc ha
     refine ⟨p1, ?_⟩
     obtain ⟨on, ort⟩ := o
     cases ort with
@@ -386,6 +385,18 @@ theorem balancedEsc_sound (esc : List Nat) (root : Sk) (h : balancedEsc esc root
         cases hh : p.1.head? with
         | none => simp [hh] at this
         | some a => exact ⟨a, rfl, by simpa [hh] using this⟩
+
+/-- the special case of an empty entry assumption -/
+theorem balancedEsc_sound (esc : List Nat) (root : Sk) (h : balancedEsc esc root = true) (s : St)
+    (hs : s.store = []) (sc : List Nat) :
+    (run root (s, sc)).st.lost = s.lost ∧
+    ∀ p ∈ (run root (s, sc)).st.store, ∃ a, p.1.head? = some a ∧ a ∈ esc :=
+  balancedFrom_sound [] esc root h s (by intro p hp; rw [hs] at hp; cases hp) sc
+
+theorem entryVars_nil (root : Sk) : entryVars [] root = [] := by
+  simp only [entryVars, List.filter_eq_nil_iff]
+  intro v _
+  cases v.head? <;> simp
 
 theorem balanced_sound (root : Sk) (h : balanced root = true) (s : St) (hs : s.store = []) (sc : List Nat) :
     (run root (s, sc)).st.lost = s.lost ∧ (run root (s, sc)).st.store = [] := by
